@@ -110,7 +110,8 @@ MUTANTS = [
     # ------------------------------------------------------------------ C05
     {"id": "c05-return-after-loop", "property": "C05", "what": "the post-loop block returns the unconverged point instead of raising",
      "edits": [(NEWTON, "        self.on_failure(x, iterations=max_attempts, residual_norm=r_final_norm)\n\n        raise ConvergenceError(", "        self.on_failure(x, iterations=max_attempts, residual_norm=r_final_norm)\n        return CorrectorOutput(x_corrected=x, iterations=max_attempts, residual_norm=r_final_norm, metadata=metadata)\n        raise ConvergenceError(")]},
-    {"id": "c05-armijo-fallback-x0", "property": "C05", "what": "the Armijo best-point fallback returns the best norm with the starting point",
+    {"id": "c05-armijo-fallback-x0-ok", "property": "C05", "expect": "quiet",
+     "what": "NON-ALARM w.r.t. the property: the Armijo best-point fallback returns the starting point (the iteration then stalls and ends in ConvergenceError: no unconverged return, no residual increase, no oversized step -- a loss of convergence, which C05 does not speak about)",
      "edits": [(ARMIJO, "            return best_x, best_norm, best_alpha\n", "            return x0, best_norm, best_alpha\n")]},
     {"id": "c05-cap-after-search", "property": "C05", "what": "the step cap is computed but the uncapped step is searched",
      "edits": [(ARMIJO, "                delta = delta * (self.max_delta / delta_norm)\n", "                _capped = delta * (self.max_delta / delta_norm)\n")]},
